@@ -6,110 +6,6 @@
 //@ include prelude/power.rs
 verus! {
 
-//@ const actors/power/src/policy.rs CONSENSUS_MINER_MIN_MINERS
-//@ item runtime/src/builtin/reward/smooth/alpha_beta_filter.rs FilterEstimate
-//@ item actors/power/src/state.rs Claim
-//@ item actors/power/src/state.rs ClaimsMap
-//@ item actors/power/src/state.rs State
-
-// ---------------- spec: the consensus-minimum rule, written from the statement ----------------
-/// what a claim contributes to the *thresholded* network totals
-pub open spec fn contrib_raw(c: Claim) -> int { if c.raw_byte_power@ >= min_power_spec(c.window_post_proof_type) { c.raw_byte_power@ } else { 0 } }
-pub open spec fn contrib_qa(c: Claim) -> int { if c.raw_byte_power@ >= min_power_spec(c.window_post_proof_type) { c.quality_adj_power@ } else { 0 } }
-pub open spec fn above(c: Claim) -> int { if c.raw_byte_power@ >= min_power_spec(c.window_post_proof_type) { 1 } else { 0 } }
-
-/// fields of State not touched by claim bookkeeping
-pub open spec fn st_rest_eq(a: State, b: State) -> bool {
-    &&& a.total_pledge_collateral == b.total_pledge_collateral
-    &&& a.this_epoch_raw_byte_power == b.this_epoch_raw_byte_power
-    &&& a.this_epoch_quality_adj_power == b.this_epoch_quality_adj_power
-    &&& a.this_epoch_pledge_collateral == b.this_epoch_pledge_collateral
-    &&& a.this_epoch_qa_power_smoothed == b.this_epoch_qa_power_smoothed
-    &&& a.miner_count == b.miner_count
-    &&& a.ramp_start_epoch == b.ramp_start_epoch
-    &&& a.ramp_duration_epochs == b.ramp_duration_epochs
-    &&& a.cron_event_queue == b.cron_event_queue
-    &&& a.first_cron_epoch == b.first_cron_epoch
-    &&& a.claims == b.claims
-    &&& a.proof_validation_batch == b.proof_validation_batch
-}
-
-//@ fn actors/power/src/state.rs set_claim
-    ensures
-        r.is_ok() ==> claim.raw_byte_power@ >= 0 && claim.quality_adj_power@ >= 0
-            && final(claims).view() == old(claims).view().insert(*a, claim),
-        r.is_err() ==> final(claims).view() == old(claims).view(),
-//@ end
-
-//@ fn actors/power/src/state.rs State::add_to_claim
-    requires
-        i64::MIN < old(self).miner_above_min_power_count < i64::MAX,
-    ensures
-        st_rest_eq(*old(self), *final(self)),
-        r.is_ok() ==> old(claims).view().dom().contains(*miner) && ({
-            let oc = old(claims).view()[*miner];
-            let nc = final(claims).view()[*miner];
-            // the claim moves by exactly the delta; every other claim is untouched
-            &&& final(claims).view() == old(claims).view().insert(*miner, nc)
-            &&& nc.raw_byte_power@ == oc.raw_byte_power@ + power@
-            &&& nc.quality_adj_power@ == oc.quality_adj_power@ + qa_power@
-            &&& nc.window_post_proof_type == oc.window_post_proof_type
-            &&& nc.raw_byte_power@ >= 0 && nc.quality_adj_power@ >= 0
-            // committed totals move by the delta
-            &&& final(self).total_bytes_committed@ == old(self).total_bytes_committed@ + power@
-            &&& final(self).total_qa_bytes_committed@ == old(self).total_qa_bytes_committed@ + qa_power@
-            // thresholded totals: remove the old contribution, add the new one (consensus-minimum rule)
-            &&& final(self).total_raw_byte_power@ == old(self).total_raw_byte_power@ - contrib_raw(oc) + contrib_raw(nc)
-            &&& final(self).total_quality_adj_power@ == old(self).total_quality_adj_power@ - contrib_qa(oc) + contrib_qa(nc)
-            &&& final(self).miner_above_min_power_count == old(self).miner_above_min_power_count - above(oc) + above(nc)
-            &&& final(self).miner_above_min_power_count >= 0
-        }),
-        r.is_err() ==> final(claims).view() == old(claims).view(),
-//@ end
-
-//@ fn actors/power/src/state.rs State::delete_claim
-    requires
-        i64::MIN < old(self).miner_above_min_power_count < i64::MAX,
-    ensures
-        st_rest_eq(*old(self), *final(self)),
-        r.is_ok() && !old(claims).view().dom().contains(*miner) ==> final(claims).view() == old(claims).view()
-            && final(self).total_raw_byte_power == old(self).total_raw_byte_power
-            && final(self).total_quality_adj_power == old(self).total_quality_adj_power
-            && final(self).total_bytes_committed == old(self).total_bytes_committed
-            && final(self).total_qa_bytes_committed == old(self).total_qa_bytes_committed
-            && final(self).miner_above_min_power_count == old(self).miner_above_min_power_count,
-        r.is_ok() && old(claims).view().dom().contains(*miner) ==> ({
-            let oc = old(claims).view()[*miner];
-            // the claim is gone, nothing else is; all totals lose exactly its contribution
-            &&& final(claims).view() == old(claims).view().remove(*miner)
-            &&& final(self).total_bytes_committed@ == old(self).total_bytes_committed@ - oc.raw_byte_power@
-            &&& final(self).total_qa_bytes_committed@ == old(self).total_qa_bytes_committed@ - oc.quality_adj_power@
-            &&& final(self).total_raw_byte_power@ == old(self).total_raw_byte_power@ - contrib_raw(oc)
-            &&& final(self).total_quality_adj_power@ == old(self).total_quality_adj_power@ - contrib_qa(oc)
-            &&& final(self).miner_above_min_power_count >= 0
-        }),
-//@ end
-
-//@ fn actors/power/src/state.rs State::current_total_power
-    ensures
-        // below the minimum number of above-threshold miners every committed byte counts; otherwise only thresholded power
-        self.miner_above_min_power_count < 4 ==> r.0@ == self.total_bytes_committed@ && r.1@ == self.total_qa_bytes_committed@,
-        self.miner_above_min_power_count >= 4 ==> r.0@ == self.total_raw_byte_power@ && r.1@ == self.total_quality_adj_power@,
-//@ end
-
-//@ fn actors/power/src/state.rs State::add_pledge_total
-    ensures
-        final(self).total_pledge_collateral@ == old(self).total_pledge_collateral@ + amount@,
-        final(self).claims == old(self).claims,
-        final(self).total_raw_byte_power == old(self).total_raw_byte_power,
-        final(self).total_quality_adj_power == old(self).total_quality_adj_power,
-        final(self).total_bytes_committed == old(self).total_bytes_committed,
-        final(self).total_qa_bytes_committed == old(self).total_qa_bytes_committed,
-        final(self).miner_above_min_power_count == old(self).miner_above_min_power_count,
-        final(self).miner_count == old(self).miner_count,
-        final(self).cron_event_queue == old(self).cron_event_queue,
-        final(self).first_cron_epoch == old(self).first_cron_epoch,
-//@ end
-
+//@ include units/shared/power_state.inc
 } // verus!
 fn main() {}
